@@ -42,13 +42,16 @@ struct Access; // defined by the verification harness, befriended by the classes
 /** Observation point of make_segmentation; empty unless a harness installs it (it must be thread-safe). */
 template<typename K>
 struct SegHooks {
-    /// (start, end, x, y, accepted): a point handed to the builder by make_segmentation(n, start, end, ...), and
-    /// whether the segment under construction accepted it (false: a segment was emitted and a new one started at x).
-    static inline std::function<void(size_t, size_t, K, size_t, bool)> on_point;
+    /// (n, start, end, epsilon, x, y, accepted): a point handed to the builder by make_segmentation(n, start, end,
+    /// epsilon, ...), and whether the segment under construction accepted it (false: a segment was emitted and a new
+    /// one started at x).
+    static inline std::function<void(size_t, size_t, size_t, size_t, K, size_t, bool)> on_point;
 };
 
-/// If > 0, make_segmentation_par splits the input in exactly this many chunks, whatever n and the thread count.
+/// If > 0, make_segmentation_par splits every input of at least forced_min_n elements in exactly this many chunks,
+/// whatever the thread count (smaller inputs, e.g. the upper levels of an index, are segmented sequentially).
 inline int forced_parallelism = 0;
+inline size_t forced_min_n = 0;
 }
 #endif
 
@@ -310,7 +313,7 @@ size_t make_segmentation(size_t n, size_t start, size_t end, size_t epsilon, Fin
         }
 #ifdef PGM_INDEX_VERIF
         if (pgm::verif::SegHooks<K>::on_point)
-            pgm::verif::SegHooks<K>::on_point(start, end, x, y, verif_c == c);
+            pgm::verif::SegHooks<K>::on_point(n, start, end, epsilon, x, y, verif_c == c);
 #endif
     };
 
@@ -358,7 +361,7 @@ size_t make_segmentation_par(size_t n, size_t epsilon, Fin in, Fout out) {
     auto parallelism = std::min(std::min(omp_get_num_procs(), omp_get_max_threads()), 20);
 #ifdef PGM_INDEX_VERIF
     if (pgm::verif::forced_parallelism > 0)
-        parallelism = pgm::verif::forced_parallelism;
+        parallelism = n >= pgm::verif::forced_min_n ? pgm::verif::forced_parallelism : 1;
 #endif
     auto chunk_size = n / parallelism;
     auto c = 0ull;
